@@ -1060,6 +1060,11 @@ func (g *gen) query() *Chain {
 				}
 			}
 			c.Sel = &Tmpl{SQL: sql, Slots: slots}
+			if c.Fin != "pluck" && g.pct("litq", 30) {
+				// a '?' that is no placeholder, after the real ones: inside a string literal
+				c.Sel.SQL += g.oneOf("litqtext", ", 'really?' AS q", ", 'a?b??' AS q")
+				c.Sel.LitQ = strings.Count(c.Sel.SQL, "?") - len(slots)
+			}
 		default:
 			t := &Tmpl{SQL: sc.qual + icol + " + @n1", Refs: []string{"n1"}, Carrier: g.oneOf("selcar", "named", "map"),
 				Binds: []Bind{{Name: "n1", A: Arg{V: pv(g.intVal())}}}}
@@ -1367,7 +1372,7 @@ func (g *gen) create() *Chain {
 		c.MapPtr = g.pct("mapptr", 30)
 	default:
 		c.MapPtr = g.pct("mapptr", 30)
-		n := 2 + g.pick("nmaps", 2)
+		n := 1 + g.pick("nmaps", 3) // a slice holding a single map is a []map too
 		for i := 0; i < n; i++ {
 			keys, vals := g.setMap(sc, 1+g.weighted("nkeys", 35, 40, 25), false)
 			if c.Conflict != nil {
